@@ -312,6 +312,9 @@ def parallel(func, tasks, timeout_each=60, nproc=NPROC):
     for i, o in enumerate(out):
         if o is None:
             out[i] = (tasks[i], 'timeout', None)
+    if all(o[1] != 'timeout' for o in out):
+        ex.shutdown(wait=True)
+        return out
     # never wait for stuck workers (a task that ignores SIGALRM, e.g. inside native code)
     for p in list(getattr(ex, '_processes', {}).values()):
         try:
